@@ -85,7 +85,7 @@ def bind_cases(draw, tier):
     m = [[k, draw(value())] for k in keys]
     order = draw(st.permutations(list(range(len(m)))))
     return {"n": n, "ops": ops, "map": m, "split": list(order[: len(m) // 2]),
-            "vseed": draw(st.integers(0, 10 ** 6))}
+            "vseed": draw(st.integers(0, 10 ** 6)), "touch": draw(st.sampled_from([True, True, False]))}
 
 
 def _build(spec):
@@ -125,12 +125,35 @@ def _params_close(p, q, vseed):
     return abs(a - b) <= 1e-12 * max(1.0, abs(a))
 
 
+def _check_fs(circ, what):
+    """free symbols of a circuit == symbols its parameters depend on, in first-appearance order."""
+    want, first = [], {}
+    for i, op in enumerate(circ.operations):
+        for p in op.params:
+            for s_ in sorted(_psyms(p), key=str):
+                if s_ not in first:
+                    first[s_] = i
+                    want.append(s_)
+    got = list(circ.free_symbols)
+    require(len(got) == len(set(got)) and set(got) == set(want), lambda: f"{what}: free_symbols {got} but the parameters depend on {want}")
+    for a_, b_ in zip(got, got[1:]):
+        require(first[a_] <= first[b_], lambda: f"{what}: free_symbols {got} not in first-appearance order")
+    for op in circ.operations:
+        ws = set()
+        for p in op.params:
+            ws |= _psyms(p)
+        require(set(op.free_symbols) == ws, lambda: f"{what}: operation {op} reports free symbols {list(op.free_symbols)}, parameters depend on {sorted(map(str, ws))}")
+
+
 def o_bind(spec):
     from orquestra.quantum.circuits import GateOperation
 
     c = _build(spec)
     m = _map(spec)
     keys = set(m)
+    if spec.get("touch", True):
+        # reports and evaluations requested before binding must not influence what the bound circuit reports
+        _check_fs(c, "original circuit")
     cb = must(lambda: c.bind(m), "Circuit.bind")
     require(cb.n_qubits == c.n_qubits, lambda: f"bind changed the width {c.n_qubits} -> {cb.n_qubits}")
     require(len(cb.operations) == len(c.operations), "bind changed the number of operations")
@@ -208,12 +231,17 @@ def o_bind(spec):
             require(_shape(o1.gate) == _shape(o2.gate), lambda: f"op {i}: two-step bind differs in gate structure")
         require(len(o1.params) == len(o2.params) and all(_params_close(p, q, spec["vseed"]) for p, q in zip(o1.params, o2.params)),
                 lambda: f"op {i}: two-step bind gives params {o2.params}, one-step {o1.params}")
+    _check_fs(cb, "bound circuit")
+    _check_fs(c2, "circuit bound in two steps")
     # extra symbols are ignored: binding only the relevant keys gives the same circuit
     relevant = {k: v for k, v in m.items() if k in set(cfs)}
     c3 = must(lambda: c.bind(relevant), "bind(relevant keys)")
     for i, (o1, o3) in enumerate(zip(cb.operations, c3.operations)):
         require(len(o1.params) == len(o3.params) and all(_params_close(p, q, spec["vseed"]) for p, q in zip(o1.params, o3.params)),
                 lambda: f"op {i}: superfluous keys changed the result")
+
+    _check_fs(c3, "circuit bound with the relevant keys only")
+    _check_fs(c, "original circuit after binding")
 
     # whole-circuit matrix
     gate_only = all(isinstance(o, GateOperation) for o in c.operations)
